@@ -499,6 +499,68 @@ def mon_tick_provenance(scn, run):
                 out.append(V("tick-not-requested", f"master tick @{call['time']} is rooted at {r}, whose pending callback request is {pend} and which has no unserved interrupt",
                              comp=r))
             last_root_service[r] = call["n"]
+    out += tick_time_origin(scn, run)
+    return out
+
+
+def tick_time_origin(scn, run):
+    """C06 'never invented', the TIME of a tick: the time of every master tick after the initial one whose roots are
+    all top-level devices is a callback time requested by one of its roots, or 'the current simulation time of an
+    interrupt' of one of its roots: not before the simulation time that corresponds to the real time at which that
+    interrupt was raised, and not after the simulation time that corresponds to the real time at which the tick
+    started (real time is converted with the configured speed relative to the tick in progress / the last tick)."""
+    out = []
+    tr = run["trace"]
+    tid = master_tid(run)
+    num, den = scn.get("speed", [1, 1])
+    t0 = scn.get("t0", 0)
+    top_devs = {c["name"] for c in scn["components"] if c["kind"] == "dev"}
+    calls = [e for e in tr.of("t-call") if e["tid"] == tid]
+    dones = [e for e in tr.of("t-done") if e["tid"] == tid]
+    ups = tr.of("update")
+    raises = [e for e in tr.of("raise") if e.get("ok")]
+    since = {}
+    for i, call in enumerate(calls):
+        roots = list(call["roots"])
+        if i == 0 or not roots or any(r not in top_devs for r in roots):
+            for r in roots:
+                since[r] = call["n"]
+            continue
+        ok = False
+        why = []
+        for r in roots:
+            s0 = since.get(r, 0)
+            pend = None
+            for u in ups:
+                if u["comp"] == r and s0 <= u["n"] < call["n"] and u.get("call_at") is not None:
+                    pend = u["call_at"]
+            if pend == call["time"]:
+                ok = True
+                break
+            for R in raises:
+                if R["comp"] != r or not (s0 < R["n"] < call["n"]):
+                    continue
+                prev = [c for c in calls if c["n"] < R["n"]]
+                if not prev:
+                    lo = hi = t0   # raised before the first tick: due at the initial time
+                else:
+                    cur = prev[-1]
+                    cur_done = next((d for d in dones if cur["n"] < d["n"] < R["n"]), None)
+                    ref = cur_done["real"] if cur_done is not None else cur["real"]
+                    lo = cur["time"] + ((R["real"] - ref) * num) // den
+                    hi = max(c["time"] + -((-(call["real"] - c["real"]) * num) // den) for c in calls if cur["n"] <= c["n"] < call["n"])
+                if lo - 2 <= call["time"] <= hi + 2:
+                    ok = True
+                    break
+                why.append(f"interrupt of {r} raised at real={R['real']}: simulation time then {lo}, at the tick's start at most {hi}")
+            if ok:
+                break
+            why.append(f"{r} asked for {pend}")
+        if not ok:
+            out.append(V("tick-time-invented", f"master tick @{call['time']} (roots {sorted(roots)}, started real={call['real']}, speed {num}/{den}) is neither a requested "
+                         f"callback time nor the current simulation time of an interrupt: " + "; ".join(why)[:400], speed_not_one=num != den))
+        for r in roots:
+            since[r] = call["n"]
     return out
 
 
